@@ -136,6 +136,7 @@ type sqlColDef struct {
 	Primary bool
 	AutoInc bool
 	Default string
+	Collate string
 }
 
 type sqlOrder struct {
@@ -182,7 +183,7 @@ type sqlParser struct {
 }
 
 func (p *sqlParser) peek() sqlTok { return p.toks[p.i] }
-func (p *sqlParser) next() sqlTok  { t := p.toks[p.i]; p.i++; return t }
+func (p *sqlParser) next() sqlTok { t := p.toks[p.i]; p.i++; return t }
 func (p *sqlParser) isKw(kw string) bool {
 	t := p.peek()
 	return t.kind == "id" && t.text == kw
@@ -247,6 +248,7 @@ func parseSQLScript(src string) ([]*sqlStmt, error) {
 		}
 		s.NumPH = p.maxN + 1
 		s.QStyle = p.q
+		resolveScopes(s, nil)
 		out = append(out, s)
 		if p.peek().kind != "eof" && !p.isOp(";") {
 			return nil, fmt.Errorf("unexpected %q after statement", p.peek().text)
@@ -376,6 +378,12 @@ func (p *sqlParser) createTable() (*sqlStmt, error) {
 					if err = p.expectKw("null"); err != nil {
 						return nil, err
 					}
+				case p.acceptKw("collate"):
+					t := p.next()
+					if t.kind != "id" && t.kind != "str" {
+						return nil, fmt.Errorf("unsupported COLLATE %q", t.text)
+					}
+					cd.Collate = strings.ToLower(strings.Trim(t.text, "\"'"))
 				case p.acceptKw("default"):
 					t := p.next()
 					if t.kind != "num" && t.kind != "str" && t.kind != "id" {
@@ -569,7 +577,23 @@ func (p *sqlParser) selectStmt() (*sqlStmt, error) {
 		if err = p.expectKw("on"); err != nil {
 			return nil, fmt.Errorf("plain DISTINCT is not in the supported subset")
 		}
-		if s.DistinctOn, err = p.identList(); err != nil {
+		if err = p.expectOp("("); err != nil {
+			return nil, err
+		}
+		for {
+			e, err := p.addExpr()
+			if err != nil {
+				return nil, err
+			}
+			if e.Op != "id" {
+				return nil, fmt.Errorf("DISTINCT ON over an expression is not in the supported subset")
+			}
+			s.DistinctOn = append(s.DistinctOn, e.Text)
+			if !p.acceptOp(",") {
+				break
+			}
+		}
+		if err = p.expectOp(")"); err != nil {
 			return nil, err
 		}
 	}
@@ -904,6 +928,95 @@ func (p *sqlParser) primary() (*sqlExpr, error) {
 		}
 	}
 	return e, nil
+}
+
+// ---- scope resolution ----
+
+// resolveScopes rewrites every column reference to a form that does not depend on how the
+// statement spells its qualifiers: a column of the innermost table in scope is written bare
+// (whether the source said `id`, `tasks.id` or `t1.id`), a column of an enclosing statement's
+// table is written `<table>^<levels up>.<column>` (whatever alias the source chose); aliases are
+// then dropped. `excluded.` (the proposed row of an upsert) is kept.
+type sqlScope struct{ table, alias string }
+
+func resolveScopes(s *sqlStmt, stack []sqlScope) {
+	if s == nil {
+		return
+	}
+	var fixId func(text string, st []sqlScope) string
+	fixId = func(text string, st []sqlScope) string {
+		i := strings.Index(text, ".")
+		if i < 0 {
+			return text
+		}
+		q, name := text[:i], text[i+1:]
+		if q == "excluded" {
+			return text
+		}
+		for k := len(st) - 1; k >= 0; k-- {
+			sc := st[k]
+			if (sc.alias != "" && sc.alias == q) || (sc.alias == "" && sc.table == q) {
+				up := len(st) - 1 - k
+				if up == 0 {
+					return name
+				}
+				return fmt.Sprintf("%s^%d.%s", sc.table, up, name)
+			}
+		}
+		return text
+	}
+	var fix func(e *sqlExpr, st []sqlScope)
+	fix = func(e *sqlExpr, st []sqlScope) {
+		if e == nil {
+			return
+		}
+		if e.Op == "id" {
+			e.Text = fixId(e.Text, st)
+		}
+		for _, a := range e.Args {
+			fix(a, st)
+		}
+		if e.Sub != nil {
+			resolveScopes(e.Sub, st)
+		}
+	}
+	switch s.Kind {
+	case "select":
+		st := append(append([]sqlScope(nil), stack...), sqlScope{s.Table, s.Alias})
+		for _, c := range s.SelCols {
+			fix(c, st)
+		}
+		fix(s.Where, st)
+		for _, g := range s.GroupBy {
+			fix(g, st)
+		}
+		for i := range s.OrderBy {
+			fix(s.OrderBy[i].Expr, st)
+		}
+		fix(s.Limit, st)
+		for i, d := range s.DistinctOn {
+			s.DistinctOn[i] = fixId(d, st)
+		}
+		s.Alias = ""
+	case "update", "delete":
+		st := append(append([]sqlScope(nil), stack...), sqlScope{s.Table, s.Alias})
+		for i := range s.Sets {
+			fix(s.Sets[i].Val, st)
+		}
+		fix(s.Where, st)
+	case "insert":
+		st := append(append([]sqlScope(nil), stack...), sqlScope{s.Table, ""})
+		for _, v := range s.Values {
+			fix(v, st)
+		}
+		resolveScopes(s.Select, stack)
+		if s.Conflict != nil {
+			for i := range s.Conflict.Sets {
+				fix(s.Conflict.Sets[i].Val, st)
+			}
+			fix(s.Conflict.Where, st)
+		}
+	}
 }
 
 // ---- canonical rendering ----
